@@ -9,6 +9,15 @@ package kafka
 // epochs 0..65535 and indices / offsets below 2^47, and Commit marks offset+1
 // for exactly that topic index and partition.  The four packing functions are
 // verified with 64-bit bit-vector semantics (option mode bv64).
+//
+// C10 (who marks, and what is handed over): the only place that marks anything for
+// commit is (*Plugin).Commit; the rebalance callbacks, the poll loop, the partition
+// consumers and Stop neither mark nor commit polled-but-unfinished offsets (guard
+// clauses), Stop commits the marked offsets only, and the client is created with
+// AutoCommitMarks (kgo auto-commits marked offsets only).  A partition consumer hands
+// every record of every fetch to the pipeline exactly once, in the order of the fetch,
+// under the id of its own topic; the poll loop forwards a fetched partition unchanged to
+// the consumer registered under the fetch's own (topic, partition).
 
 //@ func assembleSourceID
 //@   option mode bv64
@@ -56,22 +65,48 @@ package kafka
 //@     requires freshin(o)
 //@     requires index == ti && partition == tp && offset.Offset == ro + 1 && offset.Epoch == re
 //@     pure
+//@   callee MarkCommitRecords(rs)
+//@     requires false
+//@   callee CommitRecords(c, rs)
+//@     requires false
+//@   callee CommitOffsets(c, o, f)
+//@     requires false
+
+// (MarkCommitRecords / CommitRecords add one to the record's offset themselves: on top of
+// disassembleOffset's +1 the mark would pass the next, unfinished record - the only way
+// Commit may mark is MarkCommitOffsets with the offset computed here: guard clauses.)
 
 // (The marks are handed over in a map built for this one call - `fresh` - so that it
 // holds the event's own topic / partition and nothing left over from other events.)
 
-// consume: every record is handed to the pipeline with the packed id of this
-// consumer's topic and the record's partition, and the packed offset/epoch.  The
-// consumer itself never marks anything for commit: a record is marked by Commit, when
-// the pipeline says it is finished (guard clauses: the kgo mark calls must not appear).
+// (*pconsumer).consume: every record of every fetch received for this partition is handed
+// to the pipeline exactly once and in the order of the fetch (= offset order, kgo's contract
+// for FetchPartition.Records), with the packed id of this consumer's topic and the record's
+// partition, the packed offset / epoch and the record's own value.
+//
+// lastIdx is the index, in the fetch being worked on, of the last record handed to In; it is
+// -1 between fetches (it falls back to -1 with the last record of a fetch, so no source
+// anchor is needed to reset it).  In must be called for record lastIdx+1 - never again for a
+// record already handed, never skipping one - and the loop over the fetch may only advance
+// when the record of this iteration has been handed (loop 2 invariant); a fetch is left only
+// when all of it has been handed (loop 1 invariant).  A record that is skipped here is never
+// seen by the pipeline, and the commit of a later record of the partition would pass it.
+//
+// The consumer itself never marks or commits anything: a record is marked by Commit, when
+// the pipeline says it is finished (guard clauses: the kgo mark / commit calls must not
+// appear).
 
 //@ func (*pconsumer).consume
 //@   option allow-exit yes
-//@   loop 2 invariant rangeindex >= -1
+//@   ghost lastIdx int = -1
+//@   loop 1 invariant lastIdx == -1
+//@   loop 2 invariant -1 <= rangeindex && rangeindex < len(fetches.Records) && lastIdx == ite(rangeindex == len(fetches.Records) - 1, -1, rangeindex)
 //@   callee In(sourceID, name, offsets, data, isNew, meta)
-//@     requires 0 <= message.Partition && message.Partition <= 65535 && 0 <= pc.topicID && pc.topicID < 140737488355328 ==> sourceID == pc.topicID * 65536 + message.Partition
-//@     requires 0 <= message.Offset && message.Offset < 140737488355328 && 0 <= message.LeaderEpoch && message.LeaderEpoch <= 65535 ==> offsets.current == message.Offset * 65536 + message.LeaderEpoch
-//@     requires data == message.Value
+//@     requires 0 <= lastIdx + 1 && lastIdx + 1 < len(fetches.Records)
+//@     requires 0 <= fetches.Records[lastIdx + 1].Partition && fetches.Records[lastIdx + 1].Partition <= 65535 && 0 <= pc.topicID && pc.topicID < 140737488355328 ==> sourceID == pc.topicID * 65536 + fetches.Records[lastIdx + 1].Partition
+//@     requires 0 <= fetches.Records[lastIdx + 1].Offset && fetches.Records[lastIdx + 1].Offset < 140737488355328 && 0 <= fetches.Records[lastIdx + 1].LeaderEpoch && fetches.Records[lastIdx + 1].LeaderEpoch <= 65535 ==> offsets.current == fetches.Records[lastIdx + 1].Offset * 65536 + fetches.Records[lastIdx + 1].LeaderEpoch
+//@     requires data == fetches.Records[lastIdx + 1].Value
+//@     set lastIdx := ite(lastIdx + 2 == len(fetches.Records), -1, lastIdx + 1)
 //@   callee Render(m)
 //@     pure
 //@   callee newMetaInformation(m)
@@ -82,6 +117,12 @@ package kafka
 //@     requires false
 //@   callee CommitRecords(c, r)
 //@     requires false
+//@   callee CommitOffsets(c, o, f)
+//@     requires false
+//@   callee CommitOffsetsSync(c, o, f)
+//@     requires false
+//@   callee CommitUncommittedOffsets(c)
+//@     requires false
 
 // Start: the topic -> index table maps every configured topic to a position
 // of that topic in config.Topics (what Commit relies on when it indexes
@@ -91,5 +132,282 @@ package kafka
 //@ func (*Plugin).Start
 //@   option allow-exit yes
 //@   requires typeis(config, "*github.com/ozontech/file.d/plugin/input/kafka.Config")
+//@   loop 1 invariant rangeindex >= -1
 //@   callee mapupdate:idByTopic(k, v)
 //@     requires 0 <= v && v < len(p.config.Topics) && p.config.Topics[v] == k
+//@   callee NewClient(c, l, s)
+//@     requires c == p.config
+
+// (Start hands NewClient the very configuration whose Topics list Commit indexes: the topics
+// the client consumes and the topics the ids stand for are one list.)
+
+// ---------------------------------------------------------------------------
+// Partition consumers: Assigned / Lost (kgo's rebalance callbacks) and the poll loop.
+//
+// Assigned registers, for every assigned (topic, partition), a consumer under that very key
+// that knows its own topic and partition and carries the id Start recorded for the topic
+// (idByTopic[topic]; the lookup result is remembered in gid / gkey - Go maps are not modelled,
+// so the clause is an oracle on the map update).  It writes nothing but the consumer it has
+// just allocated and the table.  Neither Assigned nor Lost marks or commits anything: what is
+// committed on a rebalance is what Commit has marked, nothing that is merely polled (guard
+// clauses).  `go pc.consume()` is outside the tool's reach (goroutine start).
+
+//@ func (*splitConsume).Assigned
+//@   pure
+//@   ghost gid int = 0
+//@   ghost gkey seq
+//@   loop 1 invariant true
+//@   loop 2 invariant rangeindex >= -1
+//@   callee maplookup:idByTopic(k) (id, ok)
+//@     set gid := id
+//@     set gkey := k
+//@   callee mapupdate:consumers(k, v)
+//@     requires v != nil && freshin(v) && v.topic == k.t && v.partition == k.p
+//@     requires v.topicID == gid && k.t == gkey
+//@   callee MarkCommitRecords(r)
+//@     requires false
+//@   callee MarkCommitOffsets(o)
+//@     requires false
+//@   callee CommitRecords(c, r)
+//@     requires false
+//@   callee CommitOffsets(c, o, f)
+//@     requires false
+//@   callee CommitOffsetsSync(c, o, f)
+//@     requires false
+//@   callee CommitUncommittedOffsets(c)
+//@     requires false
+
+// Lost: closes and forgets the consumers of the lost partitions and waits for them.  The
+// property only asks that it marks / commits nothing that is not finished (guard clauses) and
+// leaves everything but the table alone (frame).  close(chan), delete(map) and the waiting
+// goroutines are outside the tool's reach; that every lost partition has a registered
+// consumer (pc != nil) is kgo's callback protocol and is NOT checked here.
+
+//@ func (*splitConsume).Lost
+//@   pure
+//@   loop 1 invariant true
+//@   loop 2 invariant rangeindex >= -1
+//@   callee Wait()
+//@     pure
+//@   callee Add(n)
+//@     pure
+//@   callee MarkCommitRecords(r)
+//@     requires false
+//@   callee MarkCommitOffsets(o)
+//@     requires false
+//@   callee CommitRecords(c, r)
+//@     requires false
+//@   callee CommitOffsets(c, o, f)
+//@     requires false
+//@   callee CommitOffsetsSync(c, o, f)
+//@     requires false
+//@   callee CommitUncommittedOffsets(c)
+//@     requires false
+
+// (*splitConsume).consume, the poll loop: one poll, then every fetched partition of that
+// very poll result is handed over (EachPartition on the value PollRecords returned, once),
+// and only then are rebalances allowed again (the client is created with
+// BlockRebalanceOnPoll: between a poll and AllowRebalance the consumer table is not changed
+// by Assigned / Lost, so the fetch of a partition finds the consumer registered for it).
+// Every completed iteration ends with rebalances allowed (iter-ensures).  The loop marks /
+// commits nothing.
+
+//@ func (*splitConsume).consume
+//@   ghost polled bool = false
+//@   ghost handed bool = false
+//@   ghost fref int = 0
+//@   ghost foff int = 0
+//@   ghost flen int = 0
+//@   loop 1 invariant !polled && !handed
+//@   loop 1 iter-ensures !polled && !handed
+//@   loop 2 invariant rangeindex >= -1
+//@   callee PollRecords(c, n) (f)
+//@     requires !polled
+//@     set polled := true
+//@     set fref := ref(f)
+//@     set foff := off(f)
+//@     set flen := len(f)
+//@   callee EachPartition(fn)
+//@     requires polled && !handed
+//@     requires ref(recv) == fref && off(recv) == foff && len(recv) == flen
+//@     set handed := true
+//@   callee AllowRebalance()
+//@     requires polled && handed
+//@     set polled := false
+//@     set handed := false
+//@   callee MarkCommitRecords(r)
+//@     requires false
+//@   callee MarkCommitOffsets(o)
+//@     requires false
+//@   callee CommitRecords(c, r)
+//@     requires false
+//@   callee CommitOffsets(c, o, f)
+//@     requires false
+//@   callee CommitOffsetsSync(c, o, f)
+//@     requires false
+//@   callee CommitUncommittedOffsets(c)
+//@     requires false
+
+// The callback of the poll loop: a fetched partition goes, unchanged (same topic, partition
+// and record list), to the consumer looked up under the fetch's own (topic, partition) - and
+// is sent at most where a consumer was found.  (How often it is sent cannot be counted:
+// ghost updates are not supported at channel sends.)
+
+//@ func (*splitConsume).consume$1(p)
+//@   pure
+//@   ghost gkt seq
+//@   ghost gkp int = 0
+//@   ghost gok bool = false
+//@   callee maplookup:consumers(k) (v, ok)
+//@     set gkt := k.t
+//@     set gkp := k.p
+//@     set gok := ok
+//@   callee chansend:fetches(x)
+//@     requires gok
+//@     requires x.Topic == old(p.Topic) && x.FetchPartition.Partition == old(p.FetchPartition.Partition) && x.FetchPartition.Records == old(p.FetchPartition.Records)
+//@     requires gkt == old(p.Topic) && gkp == old(p.FetchPartition.Partition)
+//@   callee MarkCommitRecords(r)
+//@     requires false
+//@   callee MarkCommitOffsets(o)
+//@     requires false
+//@   callee CommitRecords(c, r)
+//@     requires false
+//@   callee CommitOffsets(c, o, f)
+//@     requires false
+//@   callee CommitOffsetsSync(c, o, f)
+//@     requires false
+//@   callee CommitUncommittedOffsets(c)
+//@     requires false
+
+// ---------------------------------------------------------------------------
+// Stop commits what has been MARKED (CommitMarkedOffsets), once, before the client is closed,
+// and nothing else: in particular not the polled-but-unfinished offsets
+// (CommitUncommittedOffsets and the explicit commit calls are guard clauses), and it marks
+// nothing itself.
+
+//@ func (*Plugin).Stop
+//@   ghost ncommit int = 0
+//@   ghost closed bool = false
+//@   ensures closed && ncommit == 1
+//@   callee CommitMarkedOffsets(c) (e)
+//@     requires !closed
+//@     set ncommit := ncommit + 1
+//@   callee Close()
+//@     requires ncommit == 1 && !closed
+//@     set closed := true
+//@   callee MarkCommitRecords(r)
+//@     requires false
+//@   callee MarkCommitOffsets(o)
+//@     requires false
+//@   callee CommitRecords(c, r)
+//@     requires false
+//@   callee CommitOffsets(c, o, f)
+//@     requires false
+//@   callee CommitOffsetsSync(c, o, f)
+//@     requires false
+//@   callee CommitUncommittedOffsets(c)
+//@     requires false
+
+// Meta information of a record: its own topic, partition and offset (what the templates of
+// `meta` see); GetData exposes exactly these three under the documented names.  (The map
+// literal has no name in the SSA: the pseudo-callee is `mapupdate:?`.  A string stored in an
+// interface has no comparable payload in the model: only its type is stated.)
+
+//@ func newMetaInformation
+//@   pure
+//@   ensures result.topic == message.Topic && result.partition == message.Partition && result.offset == message.Offset
+
+//@ func (metaInformation).GetData
+//@   pure
+//@   callee mapupdate:?(k, v)
+//@     requires k == "topic" || k == "partition" || k == "offset"
+//@     requires k == "topic" ==> typeis(v, "string")
+//@     requires k == "partition" ==> typeis(v, "int32") && v.pay == m.partition
+//@     requires k == "offset" ==> typeis(v, "int64") && v.pay == m.offset
+
+// ---------------------------------------------------------------------------
+// NewClient: the option list handed to kgo.NewClient.
+//
+//  * it CONTAINS the AutoCommitMarks option (up_marks names the value AutoCommitMarks
+//    returned; it must sit in one of the 16 slots behind the common options): with it kgo's
+//    auto-commit commits only what MarkCommitOffsets marked; without it every polled record
+//    would be committed after auto_commit_interval, finished or not;
+//  * BlockRebalanceOnPoll is requested (the poll loop relies on it, see above);
+//  * the group is the configured group and the topics are exactly the configured list - the
+//    list Start numbers and Commit indexes (a topic consumed but not in that list would be
+//    committed under the name of Topics[0]);
+//  * both loss callbacks and the assignment callback are installed.
+// A nil Consumer panics when its bound methods are taken (allow-panic: start-up code).  All
+// kgo option constructors are assumed to have no effect on the caller's memory.
+
+//@ func NewClient
+//@   option allow-exit yes
+//@   option allow-panic yes
+//@   ghost gmarks bool = false
+//@   ghost gblock bool = false
+//@   ghost gcb int = 0
+//@   ghost glen int = 0
+//@   callee GetKafkaClientOptions(c, l) (r)
+//@     pure
+//@     set glen := len(r)
+//@   callee AutoCommitMarks() (o)
+//@     pure
+//@     ensures up_marks(o)
+//@     set gmarks := true
+//@   callee BlockRebalanceOnPoll() (o)
+//@     pure
+//@     set gblock := true
+//@   callee ConsumerGroup(g)
+//@     requires g == c.ConsumerGroup
+//@     pure
+//@   callee ConsumeTopics(t)
+//@     requires t == c.Topics
+//@     pure
+//@   callee OnPartitionsAssigned(f)
+//@     pure
+//@     set gcb := gcb + 1
+//@   callee OnPartitionsRevoked(f)
+//@     pure
+//@     set gcb := gcb + 10
+//@   callee OnPartitionsLost(f)
+//@     pure
+//@     set gcb := gcb + 100
+//@   callee kgo.NewClient(opts) (cl, err)
+//@     requires gmarks && gblock && gcb == 111
+//@     requires (glen + 0 < len(opts) && up_marks(opts[glen + 0])) || (glen + 1 < len(opts) && up_marks(opts[glen + 1])) || (glen + 2 < len(opts) && up_marks(opts[glen + 2])) || (glen + 3 < len(opts) && up_marks(opts[glen + 3])) || (glen + 4 < len(opts) && up_marks(opts[glen + 4])) || (glen + 5 < len(opts) && up_marks(opts[glen + 5])) || (glen + 6 < len(opts) && up_marks(opts[glen + 6])) || (glen + 7 < len(opts) && up_marks(opts[glen + 7])) || (glen + 8 < len(opts) && up_marks(opts[glen + 8])) || (glen + 9 < len(opts) && up_marks(opts[glen + 9])) || (glen + 10 < len(opts) && up_marks(opts[glen + 10])) || (glen + 11 < len(opts) && up_marks(opts[glen + 11])) || (glen + 12 < len(opts) && up_marks(opts[glen + 12])) || (glen + 13 < len(opts) && up_marks(opts[glen + 13])) || (glen + 14 < len(opts) && up_marks(opts[glen + 14])) || (glen + 15 < len(opts) && up_marks(opts[glen + 15]))
+//@   callee FetchMaxWait(d)
+//@     pure
+//@   callee MaxConcurrentFetches(n)
+//@     pure
+//@   callee FetchMaxBytes(n)
+//@     pure
+//@   callee FetchMinBytes(n)
+//@     pure
+//@   callee AutoCommitInterval(d)
+//@     pure
+//@   callee SessionTimeout(d)
+//@     pure
+//@   callee HeartbeatInterval(d)
+//@     pure
+//@   callee NewOffset()
+//@     pure
+//@   callee AtStart()
+//@     pure
+//@   callee AtEnd()
+//@     pure
+//@   callee ConsumeResetOffset(o)
+//@     pure
+//@   callee Balancers(b)
+//@     pure
+//@   callee RoundRobinBalancer()
+//@     pure
+//@   callee RangeBalancer()
+//@     pure
+//@   callee StickyBalancer()
+//@     pure
+//@   callee CooperativeStickyBalancer()
+//@     pure
+//@   callee WithTimeout(c, d)
+//@     pure
+//@   callee Background()
+//@     pure
